@@ -16,7 +16,7 @@ MANIFEST = dict(
          "succeeds for every start and every positive length (faultfree_success, full statement since the fix of D1). The simulator's per-segment arithmetic "
          "is translated from the source on every run; the assemblers are hand models tied by differential correspondence with the real classes driven "
          "by the real simulator's segment handlers through real STATV encode/decode under seeded fault streams."
-         " Since session 3: one long-lived simulator built by its real constructor serves the whole run; segments travel framed and are unwrapped by the real packet handler; the spa block carries the transport's own tags; an identical request repeated after the block changed must be served with the current bytes. Session 4: the same fault streams also run through the real engine loop (_thread_func, one iteration at a time) on a socket whose buffer holds whole bursts of datagrams (every segment doubled on every single-segment range): same outcome as the datagram-by-datagram run, property read directly. Also histories on ONE long-lived awaitable structure (transfers interleaved with partial-update patches, wholesale loads and overlapping transfers) and async_get_keeps_no_state_between_transfers / threaded_assembler_state_inventory over the regenerated skeletons. Also two transfers requested concurrently on one connection with a re-ordered opening segment, and transfer_holds_the_connection_for_all_its_attempts. Session 5: install_needs_in_sequence_final_segment (+ _traces): in both assemblers replace_status_block_segment is reachable only on a path on which the segment in hand was in sequence AND final (guard monitor over the regenerated skeletons, onlyUnderBothGuards_sound); the fake OS socket truncates a datagram to the reader's buffer. Round 15: refreshes of a CONNECTED blocking client with both of its threads stepped (ping thread calls refresh() once per ping period) and the answer to one refresh lost; every segment doubled back to back also through the awaitable structure, on short chains.",
+         " Since session 3: one long-lived simulator built by its real constructor serves the whole run; segments travel framed and are unwrapped by the real packet handler; the spa block carries the transport's own tags; an identical request repeated after the block changed must be served with the current bytes. Session 4: the same fault streams also run through the real engine loop (_thread_func, one iteration at a time) on a socket whose buffer holds whole bursts of datagrams (every segment doubled on every single-segment range): same outcome as the datagram-by-datagram run, property read directly. Also histories on ONE long-lived awaitable structure (transfers interleaved with partial-update patches, wholesale loads and overlapping transfers) and async_get_keeps_no_state_between_transfers / threaded_assembler_state_inventory over the regenerated skeletons. Also two transfers requested concurrently on one connection with a re-ordered opening segment, and transfer_holds_the_connection_for_all_its_attempts. Session 5: install_needs_in_sequence_final_segment (+ _traces): in both assemblers replace_status_block_segment is reachable only on a path on which the segment in hand was in sequence AND final (guard monitor over the regenerated skeletons, onlyUnderBothGuards_sound); the fake OS socket truncates a datagram to the reader's buffer. Round 15: refreshes of a CONNECTED blocking client with both of its threads stepped (ping thread calls refresh() once per ping period) and the answer to one refresh lost; every segment doubled back to back also through the awaitable structure, on short chains. Round 16: skeleton theorem refresh_only_when_connected over the regenerated GeckoSpa.refresh (the blocking client's session glue is in the skeleton inventory).",
     note="Trusted: Lean kernel, translator (cross-checked by sweeping (start,len) against the real simulator's queued segments), correspondence harness "
          "(virtual-time loop for the async client; stepped engine with patched clock for the threaded one). Datagram corruption and late segments of a "
          "different transfer window are outside the fault model (as in the property). Lock / polling / timeout timing is C06.",
